@@ -4,8 +4,9 @@
 (* taking the reference outcome (one evaluation at the end of a bundle where one is due).         *)
 (*                                                                                                *)
 (*   Configs  one trigger column K: DEFAULT x every recalcDeps \subseteq {A, B, F, K},            *)
-(*            NEVER / MANUAL_UPDATES x {{}, {A, K}} (recalcDeps must be ignored), each with the   *)
-(*            formula variants Fms; two trigger columns K, L: the first TwoCols pairs of Pairs2   *)
+(*            NEVER / MANUAL_UPDATES x {{}, {A, K}} (recalcDeps must be ignored), with the        *)
+(*            formula that reads A, B, F (fm = 1), and if Fm0 four of them with the plain formula; *)
+(*            two trigger columns K, L: the first TwoCols pairs of Pairs2                         *)
 (*   bundles  one action out of Single(state), or a pair <<a1, a2>> with a1 from First(state) and *)
 (*            a2 from the reduced alphabet Red(state after a1), or one of a few pairs with a      *)
 (*            schema change (SchemaPairs)                                                         *)
@@ -29,15 +30,18 @@
 (* is satisfiable there.  The history that leads to a transition is printed as one JSON line for  *)
 (* the harness to replay on the engine.                                                           *)
 EXTENDS Trigger, TLC, Json, IOUtils, SequencesExt, FiniteSetsExt
-CONSTANTS Depth, MaxActs, Fms, Abstract, FullFirst, Starts, MaxRow, TwoCols
+CONSTANTS Depth, MaxActs, Fm0, Abstract, FullFirst, Starts, MaxRow, TwoCols
 
 SUPPLY == 100
 
 (* ---- configurations --------------------------------------------------------------------------- *)
 Kc(id, when, deps, fm) == [id |-> id, when |-> when, deps |-> SetToSeq(deps), fm |-> fm]
 Configs1 ==
-  {<<Kc("K", DEFAULT, d, f)>> : d \in SUBSET {"A", "B", "F", "K"}, f \in Fms} \cup
-  {<<Kc("K", w, d, f)>> : w \in {NEVER, MANUAL}, d \in {{}, {"A", "K"}}, f \in Fms}
+  {<<Kc("K", DEFAULT, d, 1)>> : d \in SUBSET {"A", "B", "F", "K"}} \cup
+  {<<Kc("K", w, d, 1)>> : w \in {NEVER, MANUAL}, d \in {{}, {"A", "K"}}} \cup
+  (IF Fm0 THEN {<<Kc("K", DEFAULT, {}, 0)>>, <<Kc("K", DEFAULT, {"A"}, 0)>>,
+                <<Kc("K", DEFAULT, {"F", "K"}, 0)>>, <<Kc("K", MANUAL, {}, 0)>>}
+   ELSE {})
 Pairs2 ==
   <<<<Kc("K", DEFAULT, {"A"}, 1),      Kc("L", MANUAL, {}, 1)>>,
     <<Kc("K", DEFAULT, {"A", "K"}, 1), Kc("L", DEFAULT, {"F"}, 1)>>,
